@@ -43,6 +43,12 @@ use crate::{
     varint::{VARINT_MAX, be_varint},
 };
 
+/// Stub for core's slice-index panic path (maintainer's perf note 2): the panic is still reported as
+/// a failed check, only the message formatting is cut out of the symbolic execution.
+pub(crate) fn stub_slice_index_fail(_s: usize, _e: usize, _l: usize) -> ! {
+    panic!("slice index out of range")
+}
+
 /// Stub for `alloc::fmt::format` (error *texts* are irrelevant; DESIGN.md §2.3 `no_fmt`).
 pub(crate) fn stub_fmt(_a: core::fmt::Arguments<'_>) -> String {
     String::new()
@@ -134,6 +140,7 @@ fn verdict<'a, T>(r: nom::IResult<&'a [u8], T>, len: usize, expect: Option<usize
 /// C03 be_varint on every byte string of length 0..=9: value and consumption per RFC 9000 §16;
 /// truncated input -> Incomplete(exactly the number of missing bytes), never Error / Failure.
 #[kani::proof]
+#[kani::stub(core::slice::index::slice_index_fail, stub_slice_index_fail)]
 #[kani::unwind(10)]
 fn c03_varint_any_bytes() {
     let (arr, len) = any_input::<9>();
@@ -211,6 +218,7 @@ fn known_code(code: u64) -> bool {
 /// (`VarInt::from(FrameType)`), everything else is `InvalidType(value)`; `belongs_to` is total and
 /// equals RFC 9000 Table 3 for every packet type (incl. Retry / Version Negotiation: nothing).
 #[kani::proof]
+#[kani::stub(core::slice::index::slice_index_fail, stub_slice_index_fail)]
 #[kani::unwind(10)]
 fn c03_frame_type_total() {
     let x: u64 = kani::any();
@@ -254,6 +262,7 @@ fn c03_frame_type_total() {
 /// FrameType::try_from; truncated -> Error(IncompleteType), unknown -> Error(InvalidType(value));
 /// never Incomplete (be_frame's `?` conversion has `unreachable!` there) and never Failure.
 #[kani::proof]
+#[kani::stub(core::slice::index::slice_index_fail, stub_slice_index_fail)]
 #[kani::unwind(10)]
 #[kani::stub(alloc::fmt::format, stub_fmt)]
 fn c03_frame_type_any_bytes() {
@@ -857,6 +866,7 @@ pub(crate) fn model_be_varint(input: &[u8]) -> nom::IResult<&[u8], VarInt> {
 /// C03: the model equals the real `be_varint` — same value, same remaining slice, same
 /// `Incomplete(Needed)` — on every byte string of length 0..=16.
 #[kani::proof]
+#[kani::stub(core::slice::index::slice_index_fail, stub_slice_index_fail)]
 #[kani::unwind(10)]
 fn c03_varint_model_equivalence() {
     let (arr, len) = any_input::<16>();
@@ -886,6 +896,8 @@ macro_rules! dual {
     ($(#[$doc:meta])* $quick:ident, $real:ident, $unwind:expr, $unwind_real:expr, $body:block) => {
         $(#[$doc])*
         #[kani::proof]
+        #[kani::stub(core::slice::index::slice_index_fail, stub_slice_index_fail)]
+#[kani::stub(core::slice::index::slice_index_fail, stub_slice_index_fail)]
         #[kani::unwind($unwind)]
         #[kani::stub(crate::varint::be_varint, model_be_varint)]
         #[kani::stub(alloc::fmt::format, stub_fmt)]
@@ -893,6 +905,8 @@ macro_rules! dual {
 
         $(#[$doc])*
         #[kani::proof]
+        #[kani::stub(core::slice::index::slice_index_fail, stub_slice_index_fail)]
+#[kani::stub(core::slice::index::slice_index_fail, stub_slice_index_fail)]
         #[kani::unwind($unwind_real)]
         #[kani::stub(alloc::fmt::format, stub_fmt)]
         fn $real() $body
@@ -904,6 +918,8 @@ macro_rules! modelled {
     ($(#[$doc:meta])* $name:ident, $unwind:expr, $body:block) => {
         $(#[$doc])*
         #[kani::proof]
+        #[kani::stub(core::slice::index::slice_index_fail, stub_slice_index_fail)]
+#[kani::stub(core::slice::index::slice_index_fail, stub_slice_index_fail)]
         #[kani::unwind($unwind)]
         #[kani::stub(crate::varint::be_varint, model_be_varint)]
         #[kani::stub(alloc::fmt::format, stub_fmt)]
@@ -956,6 +972,7 @@ dual! {
 
 /// C03 PATH_CHALLENGE / PATH_RESPONSE on every input of <= 10 bytes.
 #[kani::proof]
+#[kani::stub(core::slice::index::slice_index_fail, stub_slice_index_fail)]
 #[kani::unwind(12)]
 fn c03_path_parsers() {
     p_path_frames::<10>()
@@ -984,6 +1001,7 @@ dual! {
 /// C03 CONNECTION_CLOSE (0x1d) and (0x1c) on every input of <= 8 bytes (reason: any bytes; std's
 /// from_utf8_lossy stubbed, be_varint model).
 #[kani::proof]
+#[kani::stub(core::slice::index::slice_index_fail, stub_slice_index_fail)]
 #[kani::unwind(10)]
 #[kani::stub(crate::varint::be_varint, model_be_varint)]
 #[kani::stub(alloc::fmt::format, stub_fmt)]
@@ -998,6 +1016,7 @@ fn c03_close_parsers() {
 
 /// Same on the real nom be_varint (thorough).
 #[kani::proof]
+#[kani::stub(core::slice::index::slice_index_fail, stub_slice_index_fail)]
 #[kani::unwind(10)]
 #[kani::stub(alloc::fmt::format, stub_fmt)]
 #[kani::stub(std::string::String::from_utf8_lossy, stub_from_utf8_lossy)]
@@ -1074,6 +1093,7 @@ modelled! {
 /// C03 NEW_TOKEN, CONNECTION_CLOSE (both layers) on every input of <= 16 bytes (thorough;
 /// from_utf8_lossy stubbed).
 #[kani::proof]
+#[kani::stub(core::slice::index::slice_index_fail, stub_slice_index_fail)]
 #[kani::unwind(20)]
 #[kani::stub(crate::varint::be_varint, model_be_varint)]
 #[kani::stub(alloc::fmt::format, stub_fmt)]
@@ -1110,6 +1130,7 @@ modelled! {
 /// with `as u8`, so ADD_ADDRESS / PUNCH_ME_NOW with NAT type 0x100, 0x101, ... decode as Blocked,
 /// FullCone, ... instead of being rejected.
 #[kani::proof]
+#[kani::stub(core::slice::index::slice_index_fail, stub_slice_index_fail)]
 #[kani::unwind(10)]
 #[kani::stub(crate::varint::be_varint, model_be_varint)]
 fn c03_nat_type_truncation_pending() {
@@ -1134,6 +1155,7 @@ fn c03_nat_type_truncation_pending() {
 /// 2^62-1 (RFC 9000 §19.6: FRAME_ENCODING_ERROR or CRYPTO_BUFFER_EXCEEDED) and rejects valid
 /// ones with offset >= 2^61.
 #[kani::proof]
+#[kani::stub(core::slice::index::slice_index_fail, stub_slice_index_fail)]
 #[kani::unwind(10)]
 #[kani::stub(crate::varint::be_varint, model_be_varint)]
 fn c03_crypto_offset_check_pending() {
@@ -1161,6 +1183,7 @@ fn any_known_frame_type() -> FrameType {
 /// `WrongType` is only required here to map into {FRAME_ENCODING_ERROR, PROTOCOL_VIOLATION};
 /// the exact RFC kind is the pending twin below.
 #[kani::proof]
+#[kani::stub(core::slice::index::slice_index_fail, stub_slice_index_fail)]
 #[kani::unwind(4)]
 #[kani::stub(core::fmt::write, stub_fmt_write)]
 fn c03_error_mapping() {
@@ -1196,6 +1219,7 @@ fn c03_error_mapping() {
 /// frame in a packet type that is not permitted as a connection error of type PROTOCOL_VIOLATION";
 /// `From<frame::Error> for QuicError` maps `WrongType` to FRAME_ENCODING_ERROR.
 #[kani::proof]
+#[kani::stub(core::slice::index::slice_index_fail, stub_slice_index_fail)]
 #[kani::unwind(4)]
 #[kani::stub(core::fmt::write, stub_fmt_write)]
 fn c03_error_mapping_wrong_type_pending() {
